@@ -1,3 +1,4 @@
+import KpModel.Format.Legacy
 import KpModel.Props.C01
 /-!
 # C04 — only the exact credentials open a database (KDBX4)
@@ -97,5 +98,95 @@ theorem C04_never_a_value (P : Prims) (L : P.Laws) (c : Config) (t : Tape) (l : 
   | ok tk' => rw [h.2.2 tk' hk (hideal tk' hk)] at hd; cases hd
   | err e => rw [h.2.1 e hk] at hd; cases hd
   | panic s => rw [h.1 s hk] at hd; cases hd
+
+/-! ### legacy formats: what an open under given credentials implies -/
+
+/-- **C04, KDBX 3.1**: the file opens under a composite key only if the outer cipher, keyed from that composite,
+    decrypts the body to a payload that begins with the stream-start bytes stored in the (unauthenticated) header;
+    without credentials it never opens. -/
+theorem C04_kdbx3 (P : Prims) (data : Bytes) (comp : Option Bytes) (r : Decrypted3) (h : decrypt3 P data comp = .ok r) :
+    ∃ (c : Bytes) (acc : H3Acc) (n : Nat) (cph : OuterCipher) (ms ts iv ss payload : Bytes) (rounds : Nat),
+      comp = some c ∧ h3Loop (data.length + 1) (data.drop 12) 12 {} = .ok (acc, n)
+      ∧ acc.cipher = some cph ∧ acc.masterSeed = some ms ∧ acc.transformSeed = some ts ∧ acc.iv = some iv
+      ∧ acc.streamStart = some ss ∧ acc.rounds = some rounds
+      ∧ P.decO cph (P.sha256 (ms ++ P.aesKdf ts rounds c)) iv (data.drop n) = some payload
+      ∧ payload.take ss.length = ss := by
+  unfold decrypt3 at h
+  split at h
+  · cases h
+  · cases hl : h3Loop (data.length + 1) (data.drop 12) 12 {} with
+    | err e => simp [hl, bind, Outcome.bind] at h
+    | panic p => simp [hl, bind, Outcome.bind] at h
+    | ok an =>
+      obtain ⟨acc, n⟩ := an
+      simp only [hl, bind, Outcome.bind] at h
+      split at h
+      · rename_i cph z ms ts rounds iv sk ss ic h1 h2 h3 h4 h5 h6 h7 h8 h9
+        split at h
+        · cases h
+        · rename_i c
+          by_cases hts : ts.length ≠ 32
+          · simp [runKdf, hts] at h
+          · simp only [runKdf, hts, ↓reduceIte] at h
+            cases hdec : P.decO cph (P.sha256 (ms ++ P.aesKdf ts rounds c)) iv (data.drop n) with
+            | none => simp [hdec] at h
+            | some payload =>
+              simp only [hdec] at h
+              by_cases hlen : payload.length < ss.length
+              · simp [hlen] at h
+              · simp only [hlen, ↓reduceIte] at h
+                by_cases hne : (payload.take ss.length != ss) = true
+                · simp [hne] at h
+                · refine ⟨c, acc, n, cph, ms, ts, iv, ss, payload, rounds, rfl, rfl, h1, h3, h4, h6, h8, h5, hdec, ?_⟩
+                  simpa using hne
+      · cases h
+
+theorem C04_kdbx3_empty (P : Prims) (data : Bytes) (r : Decrypted3) : decrypt3 P data none ≠ .ok r := by
+  intro h
+  obtain ⟨c, _, _, _, _, _, _, _, _, _, hc, _⟩ := C04_kdbx3 P data none r h
+  cases hc
+
+
+/-- **C04, KDB**: the file opens under key elements only if there are key elements, a lone one is 32 bytes long, and the
+    cipher keyed from them decrypts the body to a payload whose SHA-256 is the contents hash stored in the header. -/
+theorem C04_kdb (P : Prims) (data : Bytes) (comp : Option (Option Bytes)) (r : DecryptedKdb) (h : parseKdb P data comp = .ok r) :
+    ∃ (c padded : Bytes) (last : UInt8) (cph : OuterCipher),
+      comp = some (some c)
+      ∧ P.decO cph (P.sha256 ((data.drop 16).take 16 ++ P.aesKdf ((data.drop 88).take 32) (le32 (data.drop 120)) c))
+          ((data.drop 32).take 16) (data.drop 124) = some padded
+      ∧ padded.getLast? = some last
+      ∧ (data.drop 56).take 32 = P.sha256 (padded.take (padded.length - last.toNat)) := by
+  unfold parseKdb at h
+  split at h
+  · cases h
+  · rename_i h124
+    simp only at h
+    split at h
+    · cases h
+    · cases h
+    · rename_i c
+      have hts : ¬ (((data.drop 88).take 32).length ≠ 32) := by
+        simp only [List.length_take, List.length_drop, ne_eq, Decidable.not_not]; omega
+      simp only [runKdf, hts, ↓reduceIte, bind, Outcome.bind] at h
+      · split at h
+        · rename_i cph hc
+          try simp only at h
+          cases hdec : P.decO cph (P.sha256 ((data.drop 16).take 16 ++ P.aesKdf ((data.drop 88).take 32) (le32 (data.drop 120)) c))
+              ((data.drop 32).take 16) (data.drop 124) with
+          | none => simp [hdec] at h
+          | some padded =>
+            simp only [hdec] at h
+            cases hl : padded.getLast? with
+            | none => simp [hl] at h
+            | some last =>
+              simp only [hl] at h
+              by_cases hbig : last.toNat > padded.length
+              · simp [hbig] at h
+              · simp only [hbig, ↓reduceIte] at h
+                by_cases hne : ((data.drop 56).take 32 != P.sha256 (padded.take (padded.length - last.toNat))) = true
+                · simp [hne] at h
+                · exact ⟨c, padded, last, cph, rfl, hdec, hl, by simpa using hne⟩
+        · cases h
+        · cases h
 
 end Kp.Fmt
